@@ -4,9 +4,11 @@ import (
 	"github.com/XiXi-2024/xixi-kv/datafile"
 	"github.com/XiXi-2024/xixi-kv/fio"
 	"github.com/XiXi-2024/xixi-kv/utils"
+	"github.com/XiXi-2024/xixi-kv/verifhook"
 	"io"
 	"os"
 	"path/filepath"
+	"strconv"
 )
 
 // merge临时目录名称后缀
@@ -56,6 +58,7 @@ func (db *DB) Merge() error {
 
 	// 由于采用操作临时目录方式, 故允许提前释放锁
 	db.mu.Unlock()
+	verifhook.Point("merge.rotated", "")
 
 	// 获取 merge 临时目录路径
 	mergePath := db.mergePath()
@@ -97,8 +100,10 @@ func (db *DB) Merge() error {
 	// 执行 merge
 	// 依次读取每个数据文件, 解析得到日志记录并写入新 merge 目录
 	for _, dataFile := range mergeFiles {
+		verifhook.Point("merge.file", strconv.Itoa(int(dataFile.ID)))
 		reader := dataFile.NewReader()
 		for {
+			verifhook.Point("merge.record", "")
 			logRecord, logRecordPos, err := reader.NextLogRecord()
 			if err != nil {
 				if err == io.EOF {
@@ -148,6 +153,7 @@ func (db *DB) Merge() error {
 		}
 	}
 
+	verifhook.Point("merge.beforeMarker", "")
 	// 在 merge 临时目录创建并打开 merge 完成标识文件
 	mergeFinishedFile, err := datafile.OpenFile(mergePath, 0,
 		datafile.MergeFinishedFileSuffix, db.options.FileIOType)
@@ -234,6 +240,7 @@ func (db *DB) loadMergeFiles() (uint32, error) {
 			return 0, err
 		}
 		destName := datafile.GetFileName(db.options.DirPath, fileID, datafile.DataFileSuffix)
+		verifhook.Point("adopt.rename", destName)
 		if err := os.Rename(srcFile, destName); err != nil {
 			return 0, err
 		}
@@ -242,6 +249,7 @@ func (db *DB) loadMergeFiles() (uint32, error) {
 	// 删除其余参与了 merge 的原数据文件
 	for fileID := count; fileID < mergeID; fileID++ {
 		destName := datafile.GetFileName(db.options.DirPath, fileID, datafile.DataFileSuffix)
+		verifhook.Point("adopt.remove", destName)
 		if err := os.Remove(destName); err != nil && !os.IsNotExist(err) {
 			return 0, err
 		}
@@ -251,6 +259,7 @@ func (db *DB) loadMergeFiles() (uint32, error) {
 	srcHintFile := datafile.GetFileName(mergePath, 0, datafile.HintFileSuffix)
 	destHintFile := datafile.GetFileName(db.options.DirPath, 0, datafile.HintFileSuffix)
 	if _, err := os.Stat(srcHintFile); err == nil {
+		verifhook.Point("adopt.hint", destHintFile)
 		if err := os.Rename(srcHintFile, destHintFile); err != nil {
 			return 0, err
 		}
@@ -260,10 +269,13 @@ func (db *DB) loadMergeFiles() (uint32, error) {
 
 	// 采用完成, 先删除完成标识, 再删除 merge 目录
 	markerFile := datafile.GetFileName(mergePath, 0, datafile.MergeFinishedFileSuffix)
+	verifhook.Point("adopt.marker", markerFile)
 	if err := os.Remove(markerFile); err != nil && !os.IsNotExist(err) {
 		return 0, err
 	}
+	verifhook.Point("adopt.rmdir", mergePath)
 	_ = os.RemoveAll(mergePath)
+	verifhook.Point("adopt.done", mergePath)
 
 	return mergeID, nil
 }
